@@ -464,6 +464,7 @@ theorem step_inv (cfg : Cfg) (hs : Sound cfg) (s : State) (op : Op) (h : Inv s.c
   | reset => exact inv_init
   | chan l r => exact ⟨h.fC, h.fR, h.fA, h.fE, h.fK, h.rNC, h.aNC, h.nodup, h.rNA, h.eData, h.eRel, h.rE⟩
   | vmeta l => exact ⟨h.fC, h.fR, h.fA, h.fE, h.fK, h.rNC, h.aNC, h.nodup, h.rNA, h.eData, h.eRel, h.rE⟩
+  | migrate => exact ⟨h.fC, h.fR, h.fA, h.fE, h.fK, h.rNC, h.aNC, h.nodup, h.rNA, h.eData, h.eRel, h.rE⟩
   | seqset l n =>
     simp only [stepWith]
     split
@@ -1278,6 +1279,7 @@ theorem life_step (cfg : Cfg) (hR : Removes cfg) (s : State) (op : Op) (hi : Inv
   | reset => exact life_init
   | chan l r => exact ⟨h.relC, h.eLife, h.cE, h.cC, h.cU⟩
   | vmeta l => exact ⟨h.relC, h.eLife, h.cE, h.cC, h.cU⟩
+  | migrate => exact ⟨h.relC, h.eLife, h.cE, h.cC, h.cU⟩
   | seqset l n =>
     simp only [stepWith]
     split
